@@ -52,7 +52,8 @@ Section PrintCore.
 
   Section Core.
     Context (c c' : rconfig) (Ec : rc_date c' = layout_core (rc_date c))
-            (HL' : heading_layout (rc_date c') = true) (Hsafe : forallb safe_tok (rc_date c) = true).
+            (HL' : heading_layout (rc_date c') = true) (Hsafe : forallb safe_tok (rc_date c) = true)
+            (Hsep : sep_ok (rc_date c) = true).
 
     Lemma classify_heading_core d ln r : civil_fits (rc_date c) (civ (ln_time NM d)) ->
       classify NM ln (heading_line NM c d) r = classify NM ln (heading_line NM c' d) r.
@@ -96,7 +97,7 @@ Section PrintCore.
     (** the day is in the normal form under the layout without its final spaces too *)
     Lemma day_ok_core d : day_ok NM c d -> day_ok NM c' d.
     Proof.
-      clear HL' Hsafe. intros [H1 [H2 [H3 [H4 [H5 H6]]]]]. unfold day_ok. rewrite Ec.
+      clear HL' Hsafe Hsep. intros [H1 [H2 [H3 [H4 [H5 H6]]]]]. unfold day_ok. rewrite Ec.
       split; [exact H1|]. split; [apply civil_fits_core, H2|]. split; [exact H3|]. split; [exact H4|].
       split; [exact H5|]. rewrite day_lines_heading in H6 |- *. inversion H6 as [|x l Hh Ht]; subst.
       constructor; [|exact Ht]. unfold heading_line, fdate in Hh |- *. rewrite Ec.
@@ -111,7 +112,7 @@ Section PrintCore.
       induction 1 as [|d L Hd HL IH]; [reflexivity|].
       destruct Hd as [Ht [Hfit [_ [Hnd _]]]].
       cbn [map lognodes_of]. unfold reread_node at 1. cbn [header elems meta]. unfold fdate. rewrite Ec.
-      rewrite (format_parse_date_core _ _ Hfit). rewrite IH. cbn [option_map]. f_equal. f_equal.
+      rewrite (format_parse_date_core _ _ Hsep Hfit). rewrite IH. cbn [option_map]. f_equal. f_equal.
       unfold reread_day. rewrite <- Ht. f_equal.
       apply merge_elements_nodup. unfold reread_elems. rewrite map_map. exact Hnd.
     Qed.
@@ -163,13 +164,13 @@ Section PrintMain.
 
   (** *** walking the events of a printed log *)
   Lemma lognodes_of_printed c L :
-    Forall (day_ok NM c) L ->
+    sep_ok (rc_date c) = true -> Forall (day_ok NM c) L ->
     lognodes_of NM (rc_date c) (map (fun d => ENode (reread_node NM c d)) L) = Some (map (reread_day NM) L).
   Proof.
-    induction 1 as [|d L Hd HL IH]; [reflexivity|].
+    intros Hsep. induction 1 as [|d L Hd HL IH]; [reflexivity|].
     destruct Hd as [Ht [Hfit [_ [Hnd _]]]].
     cbn [map lognodes_of]. unfold reread_node at 1. cbn [header elems meta]. unfold fdate.
-    rewrite (format_parse_date_fits _ _ Hfit). rewrite IH. cbn [option_map]. f_equal. f_equal.
+    rewrite (format_parse_date_fits _ _ Hsep Hfit). rewrite IH. cbn [option_map]. f_equal. f_equal.
     unfold reread_day. rewrite <- Ht. f_equal.
     apply merge_elements_nodup. rewrite reread_elems_names. exact Hnd.
   Qed.
@@ -186,23 +187,24 @@ Section PrintMain.
     assert (HP : Forall (day_printable NM c) L) by (eapply Forall_impl; [|exact HF]; apply day_ok_printable).
     pose proof (events_print_output NM FS c L HL HP) as E. split; [exact E|]. split.
     - unfold read_log. rewrite (scan_print_output NM FS c L HL HP). cbn [snd]. rewrite E.
-      apply lognodes_of_printed, HF.
+      apply lognodes_of_printed; [apply heading_layout_sep, HL|exact HF].
     - apply Forall_forall. intros d _. apply Forall_forall. intros nv _. apply (reread_spec NM FS).
   Qed.
 
   (** the same for a layout that is a heading layout up to the spaces at its end: the printed log
       reads back to the same days (the records the parser delivers carry the trimmed headings) *)
   Theorem print_reads_back_core c L :
-    forallb safe_tok (rc_date c) = true -> heading_layout (layout_core (rc_date c)) = true ->
+    forallb safe_tok (rc_date c) = true -> sep_ok (rc_date c) = true ->
+    heading_layout (layout_core (rc_date c)) = true ->
     Forall (day_ok NM c) L ->
     read_log NM (rc_date c) (print_output NM c L) = Some (map (reread_day NM) L).
   Proof.
-    intros Hsafe HL HF. set (c' := with_date c (layout_core (rc_date c))).
+    intros Hsafe Hsep HL HF. set (c' := with_date c (layout_core (rc_date c))).
     assert (Ec : rc_date c' = layout_core (rc_date c)) by reflexivity.
     assert (HL' : heading_layout (rc_date c') = true) by exact HL.
     assert (HP' : Forall (day_printable NM c') L).
     { eapply Forall_impl; [|exact HF]. intros d Hd. apply day_ok_printable, (day_ok_core NM c c' Ec), Hd. }
-    apply (read_log_core NM c c' Ec HL' Hsafe L HF).
+    apply (read_log_core NM c c' Ec HL' Hsafe Hsep L HF).
     - eapply Forall_impl; [|exact HP']. intros d Hd. apply (day_lines_scannable NM FS c' d HL' Hd).
     - apply (events_print_output NM FS c' L HL' HP').
   Qed.
@@ -258,7 +260,7 @@ Section PrintMain.
     (forall n, In (ENode n) evs -> node_ok NM n) ->
     lognodes_of NM toks evs = Some L ->
     Forall (day_shape toks) L
-    /\ (L <> [] -> forallb safe_tok toks = true -> heading_layout (layout_core toks) = true).
+    /\ (L <> [] -> forallb safe_tok toks = true -> stable_layout toks = true -> heading_layout (layout_core toks) = true).
   Proof.
     induction evs as [|ev evs IH]; intros L Hok H.
     - cbn in H. injection H as <-. split; [constructor|congruence].
@@ -278,15 +280,15 @@ Section PrintMain.
         { apply M2. change name with (fst (name, v)). apply in_map. exact Hnv. }
         apply in_map_iff in HI. destruct HI as [[name' v'] [E1 E2]]. cbn in E1. subst name'.
         rewrite Forall_forall in He. apply (He _ E2).
-      + intros _ Hsafe. apply (readable_heading_layout toks (header n) cv Hsafe Hh Ed).
+      + intros _ Hsafe Hst. apply (readable_heading_layout toks (header n) cv Hsafe Hst Hh Ed).
   Qed.
 
-  (** every day of every readable log has the normal shape, and the layout is a heading layout up to
-      the spaces at its end *)
+  (** every day of every readable log has the normal shape, and the layout, when what it writes is read
+      back ([stable_layout]), is a heading layout up to the spaces at its end *)
   Theorem read_log_shape toks data L :
     read_log NM toks data = Some L ->
     Forall (day_shape toks) L
-    /\ (L <> [] -> forallb safe_tok toks = true -> heading_layout (layout_core toks) = true).
+    /\ (L <> [] -> forallb safe_tok toks = true -> stable_layout toks = true -> heading_layout (layout_core toks) = true).
   Proof.
     unfold read_log. destruct (snd (scan data NoFault)); try discriminate.
     apply lognodes_of_shape. intros n Hn. apply (events_node_ok NM data n Hn).
@@ -294,18 +296,19 @@ Section PrintMain.
 
   (** C14 for every readable log: only the notes and the line lengths need hypotheses *)
   Theorem print_reads_back_log c data L :
-    forallb safe_tok (rc_date c) = true ->
+    forallb safe_tok (rc_date c) = true -> stable_layout (rc_date c) = true ->
     read_log NM (rc_date c) data = Some L ->
     Forall (fun d => Forall (fun mp => documented_note mp = true) (notes_of NM d)) L ->
     Forall (fun d => Forall (fun l => lengthN l < max_token) (day_lines NM c d)) L ->
     read_log NM (rc_date c) (print_output NM c L) = Some (map (reread_day NM) L)
     /\ print_output NM c (map (reread_day NM) L) = print_output NM c L.
   Proof.
-    intros Hsafe Hread Hnotes Hlen. split; [|apply print_output_reread].
+    intros Hsafe Hst Hread Hnotes Hlen. split; [|apply print_output_reread].
+    assert (Hsep : sep_ok (rc_date c) = true) by (unfold stable_layout in Hst; apply andb_true_iff in Hst; apply Hst).
     destruct (read_log_shape _ _ _ Hread) as [Hshape Hlay].
     destruct L as [|d0 L0]; [reflexivity|].
-    assert (HL : heading_layout (layout_core (rc_date c)) = true) by (apply Hlay; [discriminate|exact Hsafe]).
-    apply (print_reads_back_core c (d0 :: L0) Hsafe HL).
+    assert (HL : heading_layout (layout_core (rc_date c)) = true) by (apply Hlay; [discriminate|exact Hsafe|exact Hst]).
+    apply (print_reads_back_core c (d0 :: L0) Hsafe Hsep HL).
     rewrite Forall_forall in *. intros d Hd. destruct (Hshape d Hd) as [S1 [S2 [S3 S4]]].
     unfold day_ok. auto 10 using (Hnotes d Hd), (Hlen d Hd).
   Qed.
